@@ -645,6 +645,11 @@ def field_writes(fn, owner_rx, field):
             if st["s"] != "=":
                 continue
             fes = _field_elems(st["lhs"])
+            if st["lhs"]["p"] and st["lhs"]["p"][-1] == "*" and getattr(fn, "inlined", None):
+                # a store through a captured `&mut owner.field` (a closure that was looked through: `|_| self.failed = true`)
+                if _store_through_captured_ref(fn, {"l": st["lhs"]["l"], "p": st["lhs"]["p"][:-1]}, rx, field, 0):
+                    out.append((b.idx, i))
+                    continue
             if not fes:
                 continue
             e = fes[-1]
@@ -656,6 +661,65 @@ def field_writes(fn, owner_rx, field):
             if fes and fes[-1]["f"] == field and rx.search(strip_generics(fes[-1]["of"])):
                 out.append(term_pt(fn, b.idx))
     return out
+
+
+def _store_through_captured_ref(fn, ptr_place, rx, field, depth):
+    """ptr_place holds a reference: is it (a copy of) an upvar that captured `&mut owner.field`, or directly `&mut owner.field`?"""
+    if depth > 5:
+        return False
+    fes = _field_elems(ptr_place)
+    if fes and fes[-1]["f"].isdigit():
+        return _captured_field_ref(fn, ptr_place, rx, field)
+    if ptr_place["p"]:
+        return False
+    for _pt, kind, p_ in defs(fn).of(ptr_place["l"]):
+        if kind != "assign":
+            continue
+        rv = p_["rv"]
+        if rv["r"] in ("use", "cast") and rv["a"].get("k") in ("copy", "move"):
+            if _store_through_captured_ref(fn, rv["a"]["pl"], rx, field, depth + 1):
+                return True
+        elif rv["r"] == "ref":
+            f2 = _field_elems(rv["pl"])
+            if f2 and f2[-1]["f"] == field and rx.search(strip_generics(f2[-1]["of"])):
+                return True
+            if rv["pl"]["p"] and rv["pl"]["p"][-1] == "*" and _store_through_captured_ref(fn, {"l": rv["pl"]["l"], "p": rv["pl"]["p"][:-1]}, rx, field, depth + 1):
+                return True         # a reborrow `&mut *r`
+    return False
+
+
+def _captured_field_ref(fn, lhs, rx, field):
+    """lhs is `*(env.k)` (or `*((*env).k)`): does upvar k hold `&mut owner.field`?  Follows the closure environment back to the aggregate
+    that built it and the operand stored in slot k."""
+    fes = _field_elems(lhs)
+    if not fes or not fes[-1]["f"].isdigit():
+        return False
+    k = int(fes[-1]["f"])
+    env = lhs["l"]
+    seen = set()
+    work = [env]
+    while work:
+        l = work.pop()
+        if l in seen:
+            continue
+        seen.add(l)
+        for _pt, kind, p_ in defs(fn).of(l):
+            if kind != "assign":
+                continue
+            rv = p_["rv"]
+            if rv["r"] == "agg" and rv.get("closure") and k < len(rv["ops"]):
+                o = rv["ops"][k]
+                if o.get("k") in ("copy", "move"):
+                    for _q, kind2, p2 in defs(fn).of(o["pl"]["l"]):
+                        if kind2 == "assign" and p2["rv"]["r"] == "ref":
+                            f2 = _field_elems(p2["rv"]["pl"])
+                            if f2 and f2[-1]["f"] == field and rx.search(strip_generics(f2[-1]["of"])):
+                                return True
+            elif rv["r"] in ("use", "cast") and rv["a"].get("k") in ("copy", "move"):
+                work.append(rv["a"]["pl"]["l"])
+            elif rv["r"] in ("ref", "rawptr"):
+                work.append(rv["pl"]["l"])
+    return False
 
 
 def field_reads(fn, owner_rx, field):
